@@ -29,6 +29,7 @@ import (
 	"math/big"
 	"reflect"
 	"regexp"
+	"sort"
 	"strings"
 
 	"github.com/ethereum/go-ethereum/common"
@@ -549,7 +550,7 @@ type refAttr struct {
 	set  func(m *mEvent, v any)
 }
 
-func setAddrs(m *mEvent, v any) { m.Addrs = v.([][]byte) }
+func setAddrs(m *mEvent, v any)  { m.Addrs = v.([][]byte) }
 func setSender(m *mEvent, v any) { m.Sender = v.([]byte) }
 func setEon(m *mEvent, v any)    { m.Eon = v.(uint64) }
 
@@ -763,6 +764,9 @@ func runValue(run *vh.Run, c theCase) {
 			Case: c, Observed: map[string]any{"abci": a, "decode": obs}, Expected: want})
 	}
 	run.Dist["value:"+m.Kind+":"+obs.Result]++
+	if m.Kind == "CheckIn" {
+		run.Dist["checkin-key:"+keyClass(m.Key)]++
+	}
 	dc := theCase{Kind: "malformed", ABCI: &a, H: c.H, Note: "encoding of a generated value"}
 	run.AddCase(id2, vh.CApp("CDec", vh.CN(id2), t2.coq(), coqABCI(a), vh.CZ(c.H), coq), dc, canonKey(dc), nontrivialValue(m))
 }
@@ -911,6 +915,9 @@ func runApp(run *vh.Run, c theCase) {
 		if call.Kind == "deliver" || call.Kind == "check" {
 			if m, ok := appdrv.MessageOf(call.Tx); ok && m.GetCheckIn() != nil {
 				t.addCompressedKey(m.GetCheckIn().EncryptionPublicKey)
+				if call.Kind == "deliver" {
+					run.Dist["app-checkin-key:"+keyClass(t.ckeys[string(m.GetCheckIn().EncryptionPublicKey)])]++
+				}
 			}
 		}
 		evs, panicked, _ := rawExec(a, call)
@@ -952,7 +959,7 @@ func runApp(run *vh.Run, c theCase) {
 
 // dkgHistory: a scripted block in which every DKG message type is accepted, so that all eight
 // event types occur in the app stream whatever the random generator does.
-func dkgHistory(u *appdrv.Universe, v int) appdrv.History {
+func dkgHistory(u *appdrv.Universe, p *pools, v int) appdrv.History {
 	g := appdrv.Genesis{Threshold: 2, ChainID: "verif-chain", ForkNil: true,
 		Validators: []appdrv.KV{{K: make([]byte, 32), P: 10}}}
 	for i := 0; i < 4; i++ {
@@ -969,7 +976,19 @@ func dkgHistory(u *appdrv.Universe, v int) appdrv.History {
 	tx(0, cfg, "vote")
 	tx(1, cfg, "vote")
 	for i := 0; i < 4; i++ {
-		tx(i, shmsg.NewCheckIn(u.ValKeys[i], ecies.ImportECDSAPublic(&u.Keys[i].PublicKey)), "checkin")
+		// the encryption key of a check-in is any key the keyper chooses: half of them are keys
+		// with a short coordinate
+		enc := ecies.ImportECDSAPublic(&u.Keys[i].PublicKey)
+		note := "checkin"
+		if i%2 == 0 {
+			pk, err := ethcrypto.UnmarshalPubkey(p.short[(2*v+i/2)%len(p.short)])
+			if err != nil {
+				panic(err)
+			}
+			enc = ecies.ImportECDSAPublic(pk)
+			note = "checkin, encryption key with a short coordinate"
+		}
+		tx(i, shmsg.NewCheckIn(u.ValKeys[i], enc), note)
 	}
 	a, b, c := v%4, (v+1)%4, (v+2)%4
 	tx(a, shmsg.NewPolyEval(1, []common.Address{u.Addrs[b], u.Addrs[c]}, [][]byte{{1, 2, 3}, {}}), "polyeval")
@@ -1034,8 +1053,69 @@ func (r rngReader) Read(p []byte) (int, error) {
 
 type pools struct {
 	points [][]byte
-	keys   [][]byte
+	keys   [][]byte // ordinary keys followed by the short-coordinate keys
+	short  [][]byte // keys whose X and/or Y coordinate has leading zero bytes
 	addrs  [][]byte
+}
+
+// keyClass names how many leading zero bytes the 32-byte coordinates of a 65-byte key have.
+func keyClass(k []byte) string {
+	if len(k) != 65 {
+		return "malformed"
+	}
+	lz := func(b []byte) int {
+		n := 0
+		for n < len(b) && b[n] == 0 {
+			n++
+		}
+		return n
+	}
+	zx, zy := lz(k[1:33]), lz(k[33:65])
+	if zx == 0 && zy == 0 {
+		return "full-width"
+	}
+	return fmt.Sprintf("x-zeros=%d,y-zeros=%d", min(zx, 2), min(zy, 2))
+}
+
+// shortCoordKeys finds, deterministically, secp256k1 public keys with a coordinate below 2^248
+// (about one key in 64): private keys 1, 2, 3, ... are tried until three keys with a short X
+// and three with a short Y are found (122, 130, 153, 246, ...); the rarer classes (two leading
+// zero bytes, both coordinates short) come from private keys found by the same search further
+// out and are checked here.  big.Int.Bytes() of such a coordinate has fewer than 32 bytes, so
+// an encoder that does not pad writes fewer than 65 bytes.
+func shortCoordKeys() [][]byte {
+	pub := func(d int64) []byte {
+		k, err := ethcrypto.ToECDSA(common.LeftPadBytes(big.NewInt(d).Bytes(), 32))
+		if err != nil {
+			panic(err)
+		}
+		return ethcrypto.FromECDSAPub(&k.PublicKey)
+	}
+	var out [][]byte
+	nx, ny := 0, 0
+	for d := int64(1); d < 5000 && (nx < 3 || ny < 3); d++ {
+		k := pub(d)
+		switch c := keyClass(k); {
+		case strings.HasPrefix(c, "x-zeros=1,y-zeros=0") && nx < 3:
+			nx++
+			out = append(out, k)
+		case strings.HasPrefix(c, "x-zeros=0,y-zeros=1") && ny < 3:
+			ny++
+			out = append(out, k)
+		}
+	}
+	if nx < 3 || ny < 3 {
+		panic("driver: no short-coordinate keys found")
+	}
+	for d, want := range map[int64]string{44629: "x-zeros=2,y-zeros=0", 41192: "x-zeros=0,y-zeros=2", 55959: "x-zeros=1,y-zeros=1", 62762: "x-zeros=1,y-zeros=1"} {
+		k := pub(d)
+		if keyClass(k) != want {
+			panic(fmt.Sprintf("driver: private key %d is not of class %s but %s", d, want, keyClass(k)))
+		}
+		out = append(out, k)
+	}
+	sort.Slice(out, func(i, j int) bool { return bytes.Compare(out[i], out[j]) < 0 })
+	return out
 }
 
 func makePools(r *vh.RNG) *pools {
@@ -1069,6 +1149,8 @@ func makePools(r *vh.RNG) *pools {
 		}
 		p.keys = append(p.keys, ethcrypto.FromECDSAPub(&k.PublicKey))
 	}
+	p.short = shortCoordKeys()
+	p.keys = append(p.keys, p.short...)
 	p.addrs = append(p.addrs, make([]byte, 20), bytes.Repeat([]byte{0xff}, 20), common.BigToAddress(big.NewInt(1)).Bytes(),
 		common.BytesToAddress([]byte("foo")).Bytes(), common.HexToAddress("0x5aAeb6053F3E94C9b9A09f33669435E7Ef1BeAed").Bytes(),
 		common.HexToAddress("0xabcdefabcdefabcdefabcdefabcdefabcdefabcd").Bytes())
@@ -1163,6 +1245,9 @@ func (p *pools) genEvent(r *vh.RNG, kind string) mEvent {
 	case "CheckIn":
 		m.Sender = p.genAddr(r)
 		m.Key = p.keys[r.Intn(len(p.keys))]
+		if r.Chance(1, 4) {
+			m.Key = p.short[r.Intn(len(p.short))]
+		}
 	case "BatchConfig":
 		m.Addrs = p.genAddrs(r)
 		m.Activation, m.Threshold, m.ConfigIndex = genU64(r), genU64(r), genU64(r)
@@ -1206,6 +1291,9 @@ func (p *pools) boundaryEvents() []mEvent {
 	zero := make([]byte, 20)
 	ff := bytes.Repeat([]byte{0xff}, 20)
 	var out []mEvent
+	for i, k := range p.short {
+		out = append(out, mEvent{Kind: "CheckIn", Sender: p.addrs[i%len(p.addrs)], Key: k})
+	}
 	for _, nn := range []bool{false, true} {
 		out = append(out,
 			mEvent{Kind: "CheckIn", Sender: zero, Key: p.keys[0], EmptyNotNil: nn},
@@ -1576,7 +1664,7 @@ func main() {
 	}
 	u := appdrv.NewUniverse(8)
 	for v := 0; v < 8; v++ {
-		h := dkgHistory(u, v)
+		h := dkgHistory(u, p, v)
 		runApp(run, theCase{Kind: "app", History: &h, Note: "scripted DKG block"})
 	}
 	nv := run.Scale(3000, 30000)
